@@ -66,22 +66,48 @@ def tables_(P, chk):
     # insert_alias
     b = P.body(IS + "::insert_alias")
     chk.analysed(b)
+    # where the alias record is written: the *_impl helper, or records.insert itself when the helper was folded in
+    writes = []
+    for bb, t in b.calls():
+        if IS + "::insert_alias_impl" in callee_names(t):
+            writes.append((bb, t["args"][1], t["args"][2]))
+        elif callee_def(t) == "std::collections::HashMap::insert" and len(t["args"]) == 3:
+            key = t["args"][1]
+            for r in prov(b, key):
+                if r.kind == "call" and str(r.name).endswith("alloc_str") and r.site is not None:
+                    key = b.term(r.site)["args"][-1]
+            tgt = t["args"][2]
+            for _ in range(6):
+                l = mir._operand_local(tgt)
+                d = mir.single_def(b, l) if l is not None and not tgt["place"]["p"] else None
+                if not d or d[0] != "assign":
+                    break
+                rv = d[4]
+                if rv["k"] == "use":
+                    tgt = rv["op"]
+                elif rv["k"] == "aggregate" and rv.get("agg") == "adt" and rv.get("variant") == "Some" and rv["fields"]:
+                    tgt = rv["fields"][0]["op"]
+                    break
+                else:
+                    break
+            writes.append((bb, key, tgt))
     got = {}
     for bb, v, rv in q.ok_err_assignments(b):
         st = lookup_state(b, bb)
         if v == "Ok":
-            ins = [x for x in q.blocks_calling(b, [IS + "::insert_alias_impl"]) if b.must_pass_block(bb, x)]
+            ins = [x for x, _, _ in writes if b.must_pass_block(bb, x)]
             got[st] = "insert" if ins else "noop"
         elif v == "Err":
             got[st] = "Err(" + mir.operand_shape(b, rv["fields"][0]["op"]).split("::")[-1].split("(")[0] + ")"
     want = {"absent": "insert", "canonical": "Err(AlreadyCanonical)", "alias": "noop"}
     chk.require(got == want, R_TAB, "insert_alias|absent/canonical/alias", b.loc(), "insert_alias behaves as %s" % got, str(want))
     # the alias is recorded for the canonical passed in
-    for bb, t in mir.call_sites(b, [IS + "::insert_alias_impl"]):
-        okc = q.chain_ok(b, t["args"][2], lambda r: q.is_param(r, "canonical"), stop=True) and \
-            q.all_roots(b, t["args"][1], lambda r: q.is_param(r, "value"))
+    chk.require(len(writes) >= 1, R_TAB, "insert_alias|writes the alias record", b.loc(), "insert_alias never writes a record", "%d write(s)" % len(writes))
+    for bb, key, target in writes:
+        okc = q.chain_ok(b, target, lambda r: q.is_param(r, "canonical"), stop=True) and \
+            q.all_roots(b, key, lambda r: q.is_param(r, "value"))
         chk.require(okc, R_TAB, "insert_alias|records (value -> canonical)", b.loc(bb),
-                    "insert_alias_impl(%s, %s)" % (mir.prov_strs(b, t["args"][1]), mir.prov_strs(b, t["args"][2])),
+                    "alias record written as (%s -> %s)" % (mir.prov_strs(b, key), mir.prov_strs(b, target)),
                     "insert_alias_impl(value, canonical.as_interned())")
     # ensure
     b = P.body(IS + "::ensure")
